@@ -2,14 +2,70 @@ package sim
 
 import (
 	"runtime"
+	"unsafe"
 )
 
-// goid returns the current goroutine's id by parsing the first line of its
-// stack trace ("goroutine 123 [running]:"). About 1 µs; no PRNG, no clock.
+// getg returns the address of the current goroutine's runtime.g (goid_amd64.s).
+func getg() uintptr
+
+// goidOff is the offset of the goid field inside runtime.g, found once at start-up by
+// calibration against the slow method (no hard-coded layout: it is re-derived for
+// whatever toolchain builds the harness). 0 = not found, use the slow method.
+var goidOff uintptr
+
+func init() {
+	// the offset must locate the id in two different goroutines
+	type probe struct {
+		g  uintptr
+		id int64
+	}
+	ch := make(chan probe, 2)
+	for i := 0; i < 2; i++ {
+		go func() { ch <- probe{getg(), goidSlow()} }()
+	}
+	a, b := <-ch, <-ch
+	if a.g == 0 || b.g == 0 || a.id == b.id {
+		return
+	}
+	for off := uintptr(0); off < 512; off += 8 {
+		if *(*int64)(unsafe.Pointer(a.g + off)) == a.id && *(*int64)(unsafe.Pointer(b.g + off)) == b.id {
+			// unique?
+			n := 0
+			for o2 := uintptr(0); o2 < 512; o2 += 8 {
+				if *(*int64)(unsafe.Pointer(a.g + o2)) == a.id && *(*int64)(unsafe.Pointer(b.g + o2)) == b.id {
+					n++
+				}
+			}
+			if n == 1 {
+				goidOff = off
+				// cross-check in more goroutines; any disagreement falls back to the slow method
+				ok := make(chan bool, 8)
+				for i := 0; i < 8; i++ {
+					go func() { ok <- *(*int64)(unsafe.Pointer(getg() + off)) == goidSlow() }()
+				}
+				for i := 0; i < 8; i++ {
+					if !<-ok {
+						goidOff = 0
+					}
+				}
+			}
+			return
+		}
+	}
+}
+
+// goid returns the current goroutine's id. No PRNG, no clock.
 func goid() int64 {
+	if goidOff != 0 {
+		return *(*int64)(unsafe.Pointer(getg() + goidOff))
+	}
+	return goidSlow()
+}
+
+// goidSlow parses the first line of the stack trace ("goroutine 123 [running]:").
+func goidSlow() int64 {
 	var buf [40]byte
 	n := runtime.Stack(buf[:], false)
-	// skip "goroutine "
 	var id int64
 	for i := 10; i < n; i++ {
 		c := buf[i]
@@ -20,3 +76,6 @@ func goid() int64 {
 	}
 	return id
 }
+
+// GoidFast reports whether the calibrated fast path is in use (evidence / debugging).
+func GoidFast() bool { return goidOff != 0 }
